@@ -1,7 +1,7 @@
 (** * C03 — Diagrams of - | + and labels render exactly the strokes the characters denote.
     Statements only; the sweep is in Theory/DashBarPlus.v (re-run on the regenerated table). *)
 Require Import SB.Model.Base SB.Model.Geom SB.Model.Fragment SB.Model.Property SB.Model.FragBuf
-  SB.Theory.DashBarPlus SB.Theory.LineMergeTheory.
+  SB.Theory.DashBarPlus SB.Theory.LineMergeTheory SB.Model.Endorse SB.Model.Text SB.Theory.GridSweep.
 
 (** [spec_atoms ch nb] is the specification transcribed from the property text: '-' spans its
     cell horizontally at mid-height; '|' spans it vertically at mid-width plus a half stub
@@ -38,8 +38,26 @@ Theorem C03_merging_keeps_the_run :
       SB.Model.Merge.merge_recursive fragment_merge (map FLine (segs_from p0 dx dy broken 0 n)) = Ok [FLine (hull p0 dx dy broken n)].
 Proof. exact chain_merges_to_one. Qed.
 
-(** The whole-grid statement (merging across cells, rectangle endorsement replacing four edge
-    lines by their outline, no catalogue circle or arc over this alphabet) is decided by the
+(** The whole recognition on whole grids.  [grid_strokes_as_specified g]: the text stage of the model reads the grid written as text (rows joined by line
+    feeds, blanks as spaces) as exactly the cells of the grid, and on those cells the recognition of
+    the model (grouping into spans, the behaviour table, the three merge loops, contact groups, rectangle endorsement,
+    the catalogue lookups and the re-reading of what they leave) succeeds, produces only solid lines on the half-cell
+    lattice, plain unfilled rectangles and cell text, and the set of half-cell strokes of those lines and rectangle outlines
+    is exactly the union over the cells of [spec_atoms] moved to the cell (a label counts as nothing for its neighbours).
+    Proved for EVERY 2x2 grid over {blank, '-', '|', '+', a label} and every 4x1 and 1x4 grid over {blank, '-', '|', '+'};
+    Props/C03Big.v (thorough tier and setup) adds every 3x2, 2x3, 5x1 and 1x5 grid.  Larger grids are decided by the
     correspondence and the oracle of this check, which compares exact stroke sets. *)
+Theorem C03_small_grids_whole_recognition :
+  forall g, in_shape WITH_LABEL 2 2 g \/ in_shape DRAW 4 1 g \/ in_shape DRAW 1 4 g -> grid_strokes_as_specified g.
+Proof. exact small_grids_as_specified. Qed.
+Check C03_small_grids_whole_recognition :
+  forall g, in_shape WITH_LABEL 2 2 g \/ in_shape DRAW 4 1 g \/ in_shape DRAW 1 4 g ->
+    exists acc groups got, cellbuffer_from (text_of_grid g) = Ok (CellBuffer (grid_cells g) [] [])
+      /\ endorse_cells (grid_cells g) = Ok (acc, groups)
+      /\ all_strokes (map fs_frag acc ++ flat_map (map fs_frag) groups) = Some got
+      /\ same_atoms got (spec_of_grid g) = true.
+Example C03_grid_nonvacuous : in_shape WITH_LABEL 2 2 [[PLUS; DASH]; [BAR; 97]] /\ spec_of_grid [[PLUS; DASH]; [BAR; 97]] <> [].
+Proof. split; [unfold in_shape; split; [reflexivity|]; repeat constructor; cbn; tauto | vm_compute; discriminate]. Qed.
+
 Example C03_nonvacuous : cell_ok PLUS (fun d => match d with DLeft => DASH | DBottom => BAR | _ => 0 end) = true.
 Proof. vm_compute. reflexivity. Qed.
